@@ -58,7 +58,7 @@ TREE = {
     "gpu/notes.md": "# notes\n",
     "build/gen.txt": "x\n",
 }
-DIRS = ["src", "src/sub", "inc", "inc2", "other", "build", "build/deep", "build/a", "build/b", "my inc", "cfg", "gpu", "incx", "build/incx"]
+DIRS = ["src", "src/sub", "inc", "inc2", "other", "other/gen.c", "build", "build/deep", "build/a", "build/b", "my inc", "cfg", "gpu", "incx", "build/incx"]
 
 
 def bounds(tier):
@@ -80,7 +80,7 @@ def required_cells(tier):
               "dotdot-after-directory-link:dir", "dotdot-after-directory-link:pre", "dotdot-after-directory-link:all", "forced-include:rel",
               "forced-include:abs", "forced-include:dots", "search-dir-with-blank:command", "search-dir-with-blank:arguments",
               "header-compiled-on-its-own", "compiled-files-excluded-by-pattern", "skip:missing-long-name", "skip:missing-below-a-file",
-              "skip:non-source:hip", "skip:non-source:md", "dependency-generation-options",
+              "skip:non-source:hip", "skip:non-source:md", "skip:directory-named-like-a-source-file", "dependency-generation-options",
               "cli:logical-working-directory"]
     return cells
 
@@ -190,6 +190,8 @@ SKIPS = {
     # ENAMETOOLONG, not ENOENT), and one below a path component that is a regular file (ENOTDIR)
     "missing-long-name": lambda root: {"file": "src/" + "g" * 300 + ".c", "directory": root, "arguments": ["gcc", "-c", "src/" + "g" * 300 + ".c"]},
     "missing-below-a-file": lambda root: {"file": "src/a.c/gen.c", "directory": root, "arguments": ["gcc", "-c", "src/a.c/gen.c"]},
+    # a DIRECTORY whose name ends in a source extension (an unpacked bundle, a generator's output directory): not a file
+    "directory-named-like-a-source-file": lambda root: {"file": "gen.c", "directory": os.path.join(root, "other"), "arguments": ["gcc", "-c", "gen.c"]},
 }
 
 
